@@ -172,8 +172,10 @@ THEOREMS += ["IwModel.C06." + t for t in (
 LINK_LEVELS = [0, 0, 1, 1, 2, 2, 3, 4, 5, 6]
 
 
-def gen_link_history(r, nbulk, nwaves):
-    """one or two plain-key databases; every put/del is followed by `nodes` and `image`"""
+def gen_link_history(r, nbulk, nwaves, cursors=False):
+    """one or two plain-key databases; every put/del is followed by `nodes` and `image`.  With `cursors`, some waves
+    are a cursor walking back from the end that deletes record after record (`cur 0 del`, whole nodes go through
+    `_lx_del_sblk_lw` with the cursor's long-lived lookup context) while puts above the maximum create nodes in front"""
     ops = ["open 0 1 0"]
     ndb = r.choice([1, 1, 2])
     present = {}
@@ -211,8 +213,27 @@ def gen_link_history(r, nbulk, nwaves):
         i = r.choice(list(present))
         s = sorted(present[i])
         kind = r.choice(["top", "bottom", "range", "range", "all", "refill", "refill"])
+        if cursors and r.random() < 0.6:
+            kind = "cwalk"
         n = r.choice([20, 40, 70])
-        if kind == "top":                      # greatest keys first: the first nodes of the chain go
+        if kind == "cwalk":
+            ops.append("cur 0 open %d al" % i)
+            top = (s[-1] if s else 2000) + 1
+            nsteps = r.choice([80, 120, 160])
+            for step in range(nsteps):
+                if not s:
+                    break
+                ops.append("cur 0 to prev")
+                ops.append("cur 0 del")
+                present[i].discard(s.pop(0))
+                after(i)
+                # meanwhile other calls change the head links: a burst of ascending keys fills the first node and
+                # creates a node in front of it
+                for _ in range(36 if step == nsteps // 2 else 1 if step % 7 == 0 else 0):
+                    put(i, top)
+                    top += 1
+            ops.append("cur 0 close")
+        elif kind == "top":                      # greatest keys first: the first nodes of the chain go
             for k in reversed(s[-n:]):
                 dele(i, k)
         elif kind == "bottom":                 # smallest keys: the last nodes go
@@ -260,26 +281,61 @@ def link_step(prev, cur):
     return "bad"
 
 
-def link_stream(ctx, h, drv, n, nbulk, nwaves, label):
+def stale_cursor_dels(ops, raw):
+    """indices of `cur c del` ops that remove a node although the same cursor already removed one since it was
+    opened or positioned by key (finding C06-CURDBLK: its lookup context still holds the database block it read then)"""
+    out, removed, prev = set(), {}, {}
+    for j, l in enumerate(ops):
+        w = l.split()
+        if w[0] == "cur" and w[2] in ("open", "tokey"):
+            removed[w[1]] = 0
+        elif w[0] == "cur" and w[2] == "del" and j + 1 < len(ops) and ops[j + 1].startswith("nodes "):
+            try:
+                cur = len(raw[j + 1].split()) - 1
+            except AttributeError:
+                continue
+            i = ops[j + 1].split()[1]
+            if i in prev and cur < prev[i]:
+                if removed.get(w[1], 0) > 0:
+                    out.add(j)
+                removed[w[1]] = removed.get(w[1], 0) + 1
+        if w[0] == "nodes" and isinstance(raw[j], str):
+            prev[w[1]] = len(raw[j].split()) - 1
+    return out
+
+
+def link_stream(ctx, h, drv, n, nbulk, nwaves, label, cursors=False):
     r = C.Rng(ctx.seed, "c06/links/" + label)
     d = os.path.join(C.scratch(), "img")
     os.makedirs(d, exist_ok=True)
     cases = []
     for idx in range(n):
-        ops = [l.replace("@IMG", os.path.join(d, "lk%s-%d-" % (label, idx))) for l in gen_link_history(r, nbulk, nwaves)]
+        ops = [l.replace("@IMG", os.path.join(d, "lk%s-%d-" % (label, idx))) for l in gen_link_history(r, nbulk, nwaves, cursors)]
         cases.append(Case("links", ops, None, key=hash(tuple(ops))))
     ctx.sample(dict(kind="links", n_ops=len(cases[0].ops), first_ops=[l[:80] for l in cases[0].ops[:8]]))
     canon = lambda l: "image" if l.startswith("image ") else l
     probs = differential(ctx, [h, C.scratch() + "/kv6-lk%s.db" % label], [drv, "kv"] if drv else None, cases, timeout=900, canon=canon)
+    # divergences are held back until the audit has judged the case: what follows a file corruption that an open
+    # finding explains (C06-CURDBLK) is not a second, independent correspondence failure
+    pending, excused = [], {}
+
+    def flush():
+        for c, idx, msg in pending:
+            if id(c) in excused and idx >= excused[id(c)]:
+                continue
+            ctx.corr_broken.append(msg)
+        del pending[:]
     for c, p in probs:
         if p[0] == "diverge":
-            ctx.corr_broken.append("links: model/implementation diverge at op %d `%s`: impl `%s` model `%s`" % (p[1], c.ops[p[1]][:100], p[2][:160], p[3][:160]))
+            pending.append((c, p[1] - 1, "links: model/implementation diverge at op %d `%s`: impl `%s` model `%s`" % (p[1], c.ops[p[1]][:100], p[2][:160], p[3][:160])))
         else:
             ctx.fail(c01.signature(c, p), dict(ops=c.ops, detail=p[1:]), str(p[1])[:400])
     if not drv:
+        flush()
         return
     # replay on the explicit-link model
     lines, owner = [], []          # owner[k] = (case, op index) for the k-th line sent
+    pre_suspects = []
     for c in cases:
         if c.impl is None:
             continue
@@ -299,8 +355,12 @@ def link_stream(ctx, h, drv, n, nbulk, nwaves, label):
                 st = link_step(prev, cur)
                 levels[i] = cur
                 if st == "bad":
-                    ctx.corr_broken.append("links: one operation changed the level sequence by more than one node: %s -> %s (op `%s`)" % (prev[:40], cur[:40], c.ops[j - 1][:80]))
+                    pending.append((c, j - 1, "links: one operation changed the level sequence by more than one node: %s -> %s (op `%s`)" % (prev[:40], cur[:40], c.ops[j - 1][:80])))
+                    if j + 1 < len(c.ops) and c.ops[j + 1].startswith("image "):
+                        pre_suspects.append((c, j + 1, c.ops[j + 1].split()[1]))     # let the audit judge this image
                     break
+                if st and c.ops[j - 1].startswith("cur "):
+                    ctx.hist("links:cursor_rm")
                 if st and st[0] == "ins":
                     ctx.hist("links:ins_" + ("only" if not prev else "front" if st[1] == 0 else "end" if st[1] == len(prev) else "mid"))
                     if prev and st[2] > max(prev):
@@ -320,9 +380,10 @@ def link_stream(ctx, h, drv, n, nbulk, nwaves, label):
     rc, out, e = C.run_lines([drv, "links"], lines, timeout=900)
     if rc != 0 or len(out) != len(lines):
         ctx.corr_broken.append("links: model driver failed: rc=%s got %d of %d lines %s" % (rc, len(out), len(lines), e[-300:]))
+        flush()
         return
-    bad_cases = set()
-    suspects = []
+    bad_cases = set(id(c) for c, _, _ in pre_suspects)
+    suspects = list(pre_suspects)
     for l, o, (c, j) in zip(lines, out, owner):
         if not l.startswith("cmp "):
             continue
@@ -335,7 +396,7 @@ def link_stream(ctx, h, drv, n, nbulk, nwaves, label):
             ctx.hist("links:cmp_BAD")
             if id(c) not in bad_cases:
                 bad_cases.add(id(c))
-                ctx.corr_broken.append("links: file differs from the explicit-link model after op %d `%s`: %s" % (j - 2, c.ops[j - 2][:80], o[:300]))
+                pending.append((c, j - 2, "links: file differs from the explicit-link model after op %d `%s`: %s" % (j - 2, c.ops[j - 2][:80], o[:300])))
                 suspects.append((c, j, p))
                 continue
         try:
@@ -349,11 +410,15 @@ def link_stream(ctx, h, drv, n, nbulk, nwaves, label):
             head = line.split(" | ")[0]
             if not head.startswith("audit ok"):
                 cls = re.sub(r"\d+", "N", head)[:80]
-                ctx.fail(dict(kind="audit", cls=cls), dict(ops=c.ops[:j + 1], audit=head), "file image not well-formed (link stream): " + head[:300])
+                trig = "cursor-del-after-cursor-node-del" if (j - 2) in stale_cursor_dels(c.ops, c.raw) else "-"
+                if not ctx.fail(dict(kind="audit", cls=cls, stream="links", trigger=trig), dict(ops=c.ops[:j + 1], audit=head),
+                                "file image not well-formed (link stream): " + head[:300]):
+                    excused[id(c)] = j - 2          # explained by an open finding
             try:
                 os.unlink(p)
             except OSError:
                 pass
+    flush()
 
 
 def explore(ctx, h, drv, n, nops, label):
@@ -384,10 +449,12 @@ def run(ctx):
     if ctx.tier == "quick":
         explore(ctx, h, drv, 40, 250, "q")
         link_stream(ctx, h, drv, 12, 150, 8, "q")           # link stream (explicit-link model)
+        link_stream(ctx, h, drv, 4, 150, 8, "qc", cursors=True)
     else:
         explore(ctx, h, drv, 500, 300, "t")
         explore(ctx, h, drv, 10, 6000, "tl")
         link_stream(ctx, h, drv, 60, 300, 12, "t")          # link stream (explicit-link model)
+        link_stream(ctx, h, drv, 30, 300, 12, "tc", cursors=True)
     if ctx.proof_broken or ctx.corr_broken:
         explore(ctx, h, drv, 80, 250, "search")
 
